@@ -298,6 +298,20 @@ def run(ctx, rep, model=True):
     for i in range(1 if ctx.quick else 4):
         spec = plotgen.random_spec(ctx.rng, ndims=3, nf=2, data="bits", B=2, layout="scatter")
         run_spec(ctx, rep, spec, False, [None], real_pool=True)
+    ghost_cells(ctx, rep, model)
+
+
+def ghost_cells(ctx, rep, model=True):
+    """plotfiles written WITH ghost cells (every FAB on disk is its box grown by g cells, the FAB header names the grown box and
+    the level header records g): "its exact stored data" is the grown block, for level iteration and the on-demand iterator alike.
+    Own random stream (seeded from the run's seed), so that the cases above are the same with and without this part"""
+    import random
+    rng = random.Random(ctx.seed * 1000003 + 15)
+    for i in range(2 if ctx.quick else 8):
+        spec = plotgen.random_spec(rng, ndims=[3, 2][i % 2], nf=[2, 3][i % 2], data="bits", B=2, layout=["scatter", "files"][i % 2])
+        spec["nghost"] = 1 + i % 2
+        rep.count(f"ghost-cells-on-disk:{spec['nghost']}")
+        run_spec(ctx, rep, spec, model, orders_for(ctx)[:2])
 
 
 def replay(ctx, rep, obj, model=True):
